@@ -30,6 +30,29 @@ def c03_stages(tier):
     return [wire_stage("C03", 4_000_000, timeout=1800), wire_stage("C03", 1600, name="miri", kind="miri", shards=16, timeout=2400)]
 
 
+def xport_stage(prop, cases, name="native", kind="native", **kw):
+    d = {"name": name, "kind": kind, "pkg": "xport", "bin": "xport", "prop": prop, "cases": cases, "core": kind == "native"}
+    d.update(kw)
+    return d
+
+
+def c04_stages(tier):
+    if tier == "quick":
+        return [xport_stage("C04", 300_000, crash_is_violation=True), xport_stage("C04", 480, name="miri", kind="miri", shards=16, timeout=600)]
+    return [xport_stage("C04", 12_000_000, timeout=2400, crash_is_violation=True),
+            xport_stage("C04", 2_000_000, name="checked", kind="checked", timeout=1800, crash_is_violation=True),
+            xport_stage("C04", 200_000, name="asan", kind="asan", timeout=1800, crash_is_violation=True),
+            xport_stage("C04", 6_000, name="valgrind", kind="valgrind", timeout=2400),
+            xport_stage("C04", 16_000, name="miri", kind="miri", shards=16, timeout=3000)]
+
+
+def c17_stages(tier):
+    if tier == "quick":
+        return [xport_stage("C17", 300_000, crash_is_violation=True), xport_stage("C17", 320, name="miri", kind="miri", shards=16, timeout=600)]
+    return [xport_stage("C17", 10_000_000, timeout=2400, crash_is_violation=True),
+            xport_stage("C17", 10_000, name="miri", kind="miri", shards=16, timeout=3000)]
+
+
 def c12_stages(tier):
     if tier == "quick":
         return [wire_stage("C12", 200_000), wire_stage("C12", 160, name="miri", kind="miri", shards=16, timeout=600)]
@@ -54,6 +77,35 @@ PROPS = {
                 "transport/segmentation class, capacity class, outcome class) plus every (opcode, cut position) of the exhaustive single-cut sweep; "
                 "all cases reach handle_message (non-trivial).",
         "assumptions": ["kernel layout table from /usr/include/linux/fuse.h", "SOCK_SEQPACKET delivers one record per write()/writev()"],
+    },
+    "C04": {
+        "level": "exploration",
+        "stages": c04_stages,
+        "floor": 1000,
+        "technique": "runtime monitoring: model-based op-sequence testing of Reader / VirtioFsWriter / FuseDevWriter / FileVolatileSlice / File adapters against "
+                     "flat-vector and plain-view reference models, with canaries; Miri, ASan, valgrind, overflow-checked stages",
+        "level_text": "Random operation sequences (read, read_exact, read_obj, read_to(_at), read_exact_to, split_at; write, write_all, write_vectored, write_obj, "
+                      "write_from(_at), write_all_from, split_at, commit) over random descriptor chains (0/1-byte segments, page straddling, 1-3 regions) and "
+                      "/dev/fuse buffers are checked op by op against a flat byte-vector model: returned bytes, counters, overflow refusal, final memory "
+                      "content, exactly one device record. FileVolatileSlice is compared differentially with a plain VolatileSlice; File adapters with a Vec model.",
+        "level_note": "Respects the documented precondition that an unbuffered FuseDevWriter is one-shot. State after a failed read_exact is only required to be "
+                      "monotone. Under Miri file sources are in-memory and the fusedev writer is excluded (writev).",
+        "rule": "case = one op sequence of kind {virtio reader, virtio writer, fusedev reader, fusedev writer, buffer adapter, file adapter}; distinct = "
+                "(kind, first six op kinds, chain-shape class, pass/fail); all cases execute at least one op (non-trivial).",
+        "assumptions": ["vm-memory VolatileSlice is the reference for 'plain view' semantics"],
+    },
+    "C17": {
+        "level": "exploration",
+        "stages": c17_stages,
+        "floor": 1000,
+        "technique": "runtime monitoring: exact dirty-page-set oracle over GuestMemoryMmap<AtomicBitmap> for writer API sequences and whole requests; Miri stage",
+        "level_text": "For random chain layouts biased to page edges, writer API sequences and whole requests (READ, READDIR(PLUS), GETXATTR, READLINK, LOOKUP, ...) "
+                      "run against guest memory with an AtomicBitmap; afterwards the dirty set must equal exactly the pages intersecting written ranges "
+                      "(sequences) / contain every modified page and no page beyond the reply (requests); readers and the queue region must stay clean.",
+        "level_note": "Page size 4096 (AtomicBitmap default). For a READDIR whose add_entry failed, only soundness (modified => dirty) is checked.",
+        "rule": "case = writer sequence | reader sequence | whole request; distinct = (op kinds, number of expected dirty pages, regions) resp. "
+                "(opcode, dirty/touched page counts, regions, reply count).",
+        "assumptions": ["vm-memory AtomicBitmap semantics"],
     },
     "C12": {
         "level": "exploration",
